@@ -358,3 +358,18 @@ pub fn hash_str(s: &str) -> u64 {
     }
     h
 }
+
+/// The harness's own reading of a puncturing pattern string: comma-separated tokens, each
+/// exactly "0" or "1", at least one token. Err for anything else.
+pub fn own_parse_pattern(s: &str) -> Result<Vec<bool>, ()> {
+    if s.is_empty() {
+        return Err(());
+    }
+    s.split(',')
+        .map(|t| match t {
+            "0" => Ok(false),
+            "1" => Ok(true),
+            _ => Err(()),
+        })
+        .collect()
+}
